@@ -18,7 +18,12 @@
 -/
 import Driver.Proto
 import Gotree.Spec.C13
+import Gotree.Spec.C01
 import Gotree.Model.C13Codec
+import Gotree.Model.C13Std
+import Gotree.Model.C13PxForms
+import Gotree.Model.C13NsSpec
+import Gotree.Model.C13Tips
 
 namespace Gotree.Driver.C13
 open Gotree Gotree.Driver Gotree.C13
@@ -225,7 +230,57 @@ def tieReaders (doc : Doc) (mrecs : List Rec) (first : Option Out) (tags : List 
       | some f => if mf.keptEq f then ⟨.pass, tagIf (recsExactEq mm mrecs) "exact-eq" ++ tags, ""⟩
                   else ⟨.tie, tags, "model first-tree reader: " ++ showOut mf⟩
       | none => ⟨.pass, tagIf (recsExactEq mm mrecs) "exact-eq" ++ tags, ""⟩
-  | _, _ => ⟨.pass, "model-unsupported" :: tags, ""⟩
+  | _, _ =>
+    -- the model declines only on constructs it is known not to follow: a Nexus DATA block, a lone CR in a
+    -- Nexus text, a PhyloXML phylogeny with several root clades; anything else is a broken correspondence
+    let known := match doc with
+      | .nexus s =>
+        let toks := Nex.scan s
+        toks.contains .loneCR || toks.any fun t => match t with | .kw .data _ => true | _ => false
+      | .phyloxml _ => true
+      | _ => false
+    if known then ⟨.pass, "model-unsupported" :: tags, ""⟩
+    else ⟨.tie, "model-unsupported" :: tags, "the model declines this document although it holds none of the constructs it is known not to follow"⟩
+
+/-- the instance of `Px.encodeAlt` the harness writes (flag `forms-spec`): the style is a function of the
+    name (sum of its bytes mod 6), two unknown elements in front of every clade's fields -/
+def formsStyle (n : String) : Px.NameStyle :=
+  match (n.toUTF8.foldl (fun a b => a + b.toNat) 0) % 6 with
+  | 0 => .name | 1 => .sci | 2 => .code | 3 => .sciCode | 4 => .nameTax | _ => .twice
+
+def formsJunk : List Px.Xml := [.elem "color" [] [Px.el "red" "255"], .elem "events" [] [Px.el "name" "x"]]
+
+/- Oracle gates are decided here from the document itself, not from the harness's labels (a mislabelling
+   harness must not be able to silence an oracle). -/
+
+/-- a TREE command with a star (`tree * name = …`) -/
+def hasStarTree : List Nex.Tok → Bool
+  | [] => false
+  | .kw .tree _ :: .ident "*" :: _ => true
+  | _ :: r => hasStarTree r
+
+mutual
+/-- some element carries a `branch_length` ATTRIBUTE (legal PhyloXML that gotree does not read) -/
+def hasAttrLength : Px.Xml → Bool
+  | .elem _ attrs kids => attrs.any (fun a => a.1 == "branch_length") || hasAttrLengthL kids
+  | .text _ => false
+def hasAttrLengthL : List Px.Xml → Bool
+  | [] => false
+  | x :: r => hasAttrLength x || hasAttrLengthL r
+end
+
+/-- some `<phylogeny>` has a `rooted` attribute that is not a Go boolean (not a legal document) -/
+def rootedInvalid : Px.Xml → Bool
+  | .elem _ _ kids => kids.any fun k => match k with
+    | .elem _ attrs _ => attrs.any fun a => a.1 == "rooted" && !Px.parseBoolOk a.2
+    | .text _ => false
+  | .text _ => false
+
+/-- the error message of `tree.Rename` / `NewNodeIndex` on a repeated node name (percent-escaped field) -/
+def renameDupMsg (errS : String) : Bool :=
+  match unescape errS with
+  | some m => (m.splitOn "several node with the same name").length > 1
+  | none => false
 
 def handle (op : String) (f : List String) : Verdict :=
   match op, f with
@@ -253,19 +308,33 @@ def handle (op : String) (f : List String) : Verdict :=
             treeTextOK (c01Go.write w.2))) "hyp-nexus-roundtrip-translate" ++
         tagIf (isNexus && ts.all innerNamesDistinct) "inner-names-distinct" ++
         tagIf (fmt == "phyloxml" && ts.all (pxOK fun _ => true)) "hyp-phyloxml-roundtrip" ++
+        -- the hypothesis of phyloxml_chain_go: every number in C01's domain of the executable codec
+        tagIf (fmt == "phyloxml" && ts.all (pxOK Newick.goDomS)) "hyp-phyloxml-chain-go" ++
         [fmt, via] ++ tagIf wf "wf13" ++ tagIf (sameTaxa ts) "sametaxa" ++ tagIf hyp "hyp" ++
         tagIf (ts.length ≥ 2) "nontrivial" ++ treeTags ts
       -- oracle on the implementation's own output
       if firstS.startsWith "panic" || wres.startsWith "panic" then ⟨.oracle, tags, "panic: " ++ wres ++ " " ++ firstS⟩
       else if hyp && wres != "ok" then ⟨.oracle, tags, "writer failed on well-formed trees"⟩
       else if hyp && !(recsAre (if fmt == "nexus1" then ts.take 1 else ts) mrecs 0) then
-        ⟨.oracle, tagIf f60 "f60-region" ++ tags, (if f60 then "class=NexusTranslateDuplicateNodeNames " else "") ++
+        -- on a case of the open finding F60, run the repaired variant of the model (rename tips only,
+        -- Model/C13Tips.lean, theorem nexus_roundtrip_translate_tipsOnly): does it deliver the trees?
+        let repaired := f60 && (match Nex.parseTips c01Go (writeNexusTips c01Go true ((List.range ts.length).zip ts)) with
+          | .ok d => recsAre ts (recsOfTrees (d.map (·.2)) 0) 0
+          | _ => false)
+        ⟨.oracle, tagIf f60 "f60-region" ++ tagIf repaired "f60-tipsonly-variant-ok" ++ tags, (if f60 then "class=NexusTranslateDuplicateNodeNames " else "") ++
           "conversion chain: the trees read back differ from the trees written (shape/names/lengths/supports), or a tree is missing"⟩
       else if isNexus && fmt != "nexus1" && wres == "ok" && ts.all (fun t => t.tipNames.all labelOK) && !(taxaBlockOK ts text) then
         ⟨.oracle, tags, "Nexus taxa block: TAXLABELS / NTAX are not the tips of all the trees"⟩
       else if first.isSome && !(firstIsHead (first.getD .err) mrecs) then
         ⟨.oracle, tags, "first-tree reader differs from the head of the multi-tree reader"⟩
       else if wres != "ok" then ⟨.pass, ("writer-" ++ wres) :: tags, ""⟩
+      -- the quantifier of the oracle (WF13 …) must lie inside the hypotheses of the theorem for this format
+      -- (no lemma `WF13 → hypotheses` is proved: it is checked on every case instead); F60's region excepted
+      else if hyp && !(tags.contains "f60-region") && !(ts.any fun t => !innerNamesDistinct t) &&
+          ((fmt == "nexus" && !tags.contains "hyp-nexus-roundtrip-plain") ||
+           (fmt == "nexustr" && !tags.contains "hyp-nexus-roundtrip-translate") ||
+           (fmt == "phyloxml" && !tags.contains "hyp-phyloxml-chain-go")) then
+        ⟨.tie, tags, "a case inside the oracle's domain is not an instance of the round-trip theorem of its format (hypotheses not satisfied)"⟩
       else
         -- correspondence
         let mtext := modelText fmt ts
@@ -295,9 +364,13 @@ def handle (op : String) (f : List String) : Verdict :=
       let good := items.filterMap id
       let wf := good.all WF13
       let fh := firstHyp text
-      -- trees that do not end a line are outside the property's domain: tagged, correspondence only
-      let outside := (layout.splitOn ",").any fun l => l == "sameline" || l == "cr-only"
-      let tags := (layout.splitOn ",").filter (· != "") ++ tagIf wf "wf13" ++ tagIf fh "first-hyp" ++
+      -- a lone CR as line end is outside the property's domain (Spec `newickDomain`): decided HERE from the
+      -- text, not from the harness's layout label; correspondence only.  Several trees on one line are
+      -- inside the domain since fix 3850fd2 (before: theorem multi_sameline_drops_second)
+      let outside := !newickDomain text
+      let tags := (layout.splitOn ",").filter (· != "") ++ tagIf outside "outside-domain" ++
+        tagIf (!treesEndLines text) "dom-semicolon-inside-line" ++ tagIf (!noLoneCR text) "dom-lone-cr" ++
+        tagIf wf "wf13" ++ tagIf fh "first-hyp" ++
         tagIf (items.length ≥ 2) "nontrivial" ++ tagIf (items.any Option.isNone) "broken" ++ treeTags good
       if firstS.startsWith "panic" || mrecsS.startsWith "panic" then ⟨.oracle, tags, "panic: " ++ firstS⟩
       else if wf && !outside && !(recsExpected items mrecs 0) then
@@ -313,9 +386,13 @@ def handle (op : String) (f : List String) : Verdict :=
     | some textS, some xdoc, some mrecs =>
       let first : Option Out := parseFirst firstS
       if first.isNone && !firstS.startsWith "panic" then bad "C13.doc first" else
-      let tags := [fmt, "doc"] ++ tagIf (mrecs.any fun r => !r.out.isOk) "err-record" ++ tagIf (mrecs.length ≥ 2) "nontrivial"
+      -- first tree = head of the multi-tree reader: every format; for Newick under the hypothesis of
+      -- first_eq_head_newick (the first tree on its own lines), decided here from the text
+      let fh := fmt != "newick" || firstHyp textS.toList
+      let tags := [fmt, "doc"] ++ tagIf (mrecs.any fun r => !r.out.isOk) "err-record" ++ tagIf (mrecs.length ≥ 2) "nontrivial" ++
+        tagIf (fmt == "newick" && fh) "first-hyp"
       if firstS.startsWith "panic" then ⟨.oracle, tags, "panic: " ++ firstS⟩
-      else if fmt != "newick" && !(firstIsHead (first.getD .err) mrecs) then
+      else if fh && !(firstIsHead (first.getD .err) mrecs) then
         ⟨.oracle, tags, "first-tree reader differs from the head of the multi-tree reader"⟩
       else match docOf fmt textS.toList xdoc with
         | some d => tieReaders d mrecs first tags
@@ -326,8 +403,17 @@ def handle (op : String) (f : List String) : Verdict :=
     | some t, some nd, some mrecs =>
       let first : Option Out := parseFirst firstS
       if first.isNone && !firstS.startsWith "panic" then bad "C13.ns first" else
-      let tags := ["nextstrain", kind] ++ tagIf (kind == "ok") "nontrivial" ++ treeTags [t]
+      -- is the decoded document the specification's (`nsOf`, theorem nextstrain_reads_tree), and does its
+      -- hypothesis hold?
+      let specEq := match nd with
+        | some (.mk nm dv ks) => nsEq (.mk nm dv ks) (nsOf dv t)
+        | none => false
+      let nsHyp := nsNodeOK t
+      let tags := ["nextstrain", kind] ++ tagIf (kind == "ok") "nontrivial" ++ tagIf specEq "ns-spec-eq" ++
+        tagIf nsHyp "hyp-nextstrain-reads-tree" ++ treeTags [t]
       if firstS.startsWith "panic" || mrecsS.startsWith "panic" then ⟨.oracle, tags, "panic: " ++ firstS⟩
+      else if specEq && nsHyp && !(recsAre [t] mrecs 0) then
+        ⟨.oracle, tags, "Nextstrain document nsOf inside the hypothesis of nextstrain_reads_tree: the tree read differs from the tree it describes"⟩
       else if kind == "ok" && !(recsAre [t] mrecs 0) then
         ⟨.oracle, tags, "Nextstrain: the tree read differs from the tree the document describes (shape/names/lengths)"⟩
       else if kind != "ok" && mrecs.any (·.out.isOk) then ⟨.oracle, tags, "Nextstrain: a broken document is delivered as a tree"⟩
@@ -341,13 +427,26 @@ def handle (op : String) (f : List String) : Verdict :=
       let first : Option Out := parseFirst firstS
       if first.isNone && !firstS.startsWith "panic" then bad "C13.foreign first" else
       let flags := (flagsS.splitOn ",").filter (· != "")
-      -- a form the reader is not expected to accept (`tree * name`): correspondence only
-      let outside := flags.contains "star"
+      -- forms the reader is not expected to accept (`tree * name`, quoted labels): correspondence only
+      let outside := hasStarTree (Nex.scan textS.toList) || textS.toList.contains (Char.ofNat 39)
       let wf := WF13list ts
       let hyp := wf && sameTaxa ts && !outside
-      let tags := ["foreign-nexus"] ++ flags ++ tagIf wf "wf13" ++ tagIf hyp "hyp" ++ tagIf (ts.length ≥ 2) "nontrivial" ++
-        treeTags ts
+      -- the standard-form documents of `writeNexusStd` (theorem nexus_std_roundtrip): is the harness's text
+      -- the specification's text, and do the theorem's hypotheses hold?
+      let std := flags.contains "std-form"
+      let labels := (taxlabelsOf (Nex.scan textS.toList)).getD []
+      let stdText := std && writeNexusStd c01Go labels ts == textS.toList
+      let stdHyp := std && decide (labels.length ≤ 9223372036854775807) && labels.all labelOK && !hasDup labels &&
+        ts.all (fun t => sameSet t.tipNames labels && !hasDup t.tipNames && namesOK t &&
+          (match c01Go.parse (c01Go.write (renameT (stdMap 1 labels) t)) with
+           | some u => sameKept u (renameT (stdMap 1 labels) t)
+           | none => false) &&
+          treeTextOK (c01Go.write (renameT (stdMap 1 labels) t)))
+      let tags := ["foreign-nexus"] ++ flags ++ tagIf outside "outside-domain" ++ tagIf wf "wf13" ++ tagIf hyp "hyp" ++ tagIf (ts.length ≥ 2) "nontrivial" ++
+        tagIf stdText "std-text-eq" ++ tagIf stdHyp "hyp-nexus-std-roundtrip" ++ treeTags ts
       if firstS.startsWith "panic" || mrecsS.startsWith "panic" then ⟨.oracle, tags, "panic: " ++ firstS⟩
+      else if stdHyp && stdText && !(recsAre ts mrecs 0) then
+        ⟨.oracle, tags, "standard-form Nexus document inside the hypotheses of nexus_std_roundtrip: the trees read differ from the trees it holds"⟩
       else if hyp && !(recsAre ts mrecs 0) then
         let f60 := isF60 (flags.any fun f => f.startsWith "translate-") ts mrecs
         ⟨.oracle, tagIf f60 "f60-region" ++ tags, (if f60 then "class=NexusTranslateDuplicateNodeNames " else "") ++
@@ -364,19 +463,31 @@ def handle (op : String) (f : List String) : Verdict :=
       let flags := (flagsS.splitOn ",").filter (· != "")
       -- `branch_length` given as an ATTRIBUTE of <clade> (legal PhyloXML) is not read by gotree: the lengths
       -- are lost; correspondence only for those documents
-      let lossy := flags.contains "attr-length"
+      let lossy := match xdoc with | some x => hasAttrLength x | none => false
+      -- a `rooted` attribute that is not a Go boolean: not a legal document, model against code only
+      let invalid := match xdoc with | some x => rootedInvalid x | none => false
       let wf := WF13list ts
-      let hyp := wf && !lossy
-      let tags := ["foreign-phyloxml"] ++ flags ++ tagIf wf "wf13" ++ tagIf hyp "hyp" ++ tagIf (ts.length ≥ 2) "nontrivial" ++
-        treeTags ts
+      let hyp := wf && !lossy && !invalid
+      -- documents in exactly the layout of the specification writer `Px.encodeAlt` (theorem
+      -- phyloxml_forms_roundtrip): is the harness's element tree the specification's, do the hypotheses hold?
+      let forms := flags.contains "forms-spec"
+      let formsEq := forms && (match xdoc with
+        | some x => xmlEq (dropRootAttrs x) (Px.encodeAlt goNum formsStyle formsJunk [' '] ['\n'] ts)
+        | none => false)
+      let formsHyp := forms && Px.junkOK formsJunk && ts.all (pxOK Newick.goDomS)
+      let tags := ["foreign-phyloxml"] ++ flags ++ tagIf lossy "dom-attr-length" ++ tagIf invalid "dom-rooted-invalid" ++
+        tagIf wf "wf13" ++ tagIf hyp "hyp" ++ tagIf (ts.length ≥ 2) "nontrivial" ++
+        tagIf formsEq "forms-xml-eq" ++ tagIf formsHyp "hyp-phyloxml-forms" ++ treeTags ts
       if firstS.startsWith "panic" || mrecsS.startsWith "panic" then ⟨.oracle, tags, "panic: " ++ firstS⟩
+      else if formsEq && formsHyp && !(recsAre ts mrecs 0) then
+        ⟨.oracle, tags, "PhyloXML document of encodeAlt inside the hypotheses of phyloxml_forms_roundtrip: the trees read differ from the trees it holds"⟩
       else if hyp && !(recsAre ts mrecs 0) then
         ⟨.oracle, tags, "legal PhyloXML document: the trees read differ from the trees it holds"⟩
       else if !(firstIsHead (first.getD .err) mrecs) then
         ⟨.oracle, tags, "first-tree reader differs from the head of the multi-tree reader"⟩
       else tieReaders (.phyloxml xdoc) mrecs first tags
     | _, _, _ => bad "C13.foreignpx fields"
-  | "reformat", [infmt, outfmt, trS, omode, brS, dumps, intext, aux, exit, outtext, _outx, mrecsS] =>
+  | "reformat", [infmt, outfmt, trS, omode, brS, dumps, intext, aux, exit, outtext, _outx, mrecsS, errS] =>
     match (splitTerm "|" dumps).mapM T.undump, unescape intext, unescape outtext, parseRecs mrecsS with
     | some ts, some inS, some outS, some mrecs =>
       let translate := trS == "1"
@@ -391,12 +502,17 @@ def handle (op : String) (f : List String) : Verdict :=
       | none => bad "C13.reformat input"
       | some doc =>
       let nexusInvolved := outfmt == "nexus" || infmt == "nexus" || infmt == "nexustr"
-      let trInvolved := translate || infmt == "nexustr"
       let wf := WF13list ts
       let hyp := wf && !broken && (!nexusInvolved || sameTaxa ts)
       let dupNames := ts.any fun t => !innerNamesDistinct t
-      let f60 := trInvolved && ts.all tipsOK && sameTaxa ts && ts.all nonTipNamesNotNumeral && dupNames &&
-        (exit == "fail" || isF60 true ts mrecs)
+      -- open finding F60, as narrow as the finding: either the WRITER was asked for a translate table (output
+      -- nexus with --translate: the command succeeds and its document is read back as the single error
+      -- record), or the READER met a translate table over a repeated inner name (input written with a
+      -- table: the command fails with tree.Rename's duplicate-name message).  Any other failure — a crash,
+      -- another message, --translate with another output format — does not carry the class.
+      let f60 := ts.all tipsOK && sameTaxa ts && ts.all nonTipNamesNotNumeral && dupNames &&
+        ((outfmt == "nexus" && translate && exit == "ok" && isF60 true ts mrecs) ||
+         (infmt == "nexustr" && exit == "fail" && renameDupMsg errS))
       let tags := ["reformat", "in-" ++ infmt, "out-" ++ outfmt, "o-" ++ omode] ++ tagIf translate "translate" ++
         tagIf broken "broken-input" ++ tagIf wf "wf13" ++ tagIf hyp "hyp" ++ tagIf (ts.length ≥ 2) "nontrivial" ++
         tagIf f60 "f60-region" ++ treeTags ts
@@ -424,7 +540,7 @@ def handle (op : String) (f : List String) : Verdict :=
             ⟨.tie, tags, "model of the reformat glue: trees written before the error"⟩
           else ⟨.pass, tags, ""⟩
     | _, _, _, _ => bad "C13.reformat fields"
-  | "clifirst", [infmt, dumps, _text, _aux, exit, rowsS] =>
+  | "clifirst", [infmt, dumps, _text, _aux, exit, rowsS, errS] =>
     match (splitTerm "|" dumps).mapM T.undump with
     | some ts =>
       let rows := (rowsS.splitOn "|").filter (· != "")
@@ -435,7 +551,8 @@ def handle (op : String) (f : List String) : Verdict :=
       let hyp := wf && sameTaxa ts
       let unambiguous := match ts with | t :: _ => !t.rooted && !anySingle t && t.kids.length != 1 | [] => false
       let dupNames := ts.any fun t => !innerNamesDistinct t
-      let f60 := infmt == "nexustr" && ts.all tipsOK && sameTaxa ts && ts.all nonTipNamesNotNumeral && dupNames && exit == "fail"
+      let f60 := infmt == "nexustr" && ts.all tipsOK && sameTaxa ts && ts.all nonTipNamesNotNumeral && dupNames &&
+        exit == "fail" && renameDupMsg errS
       let tags := ["clifirst", "in-" ++ infmt] ++ tagIf hyp "hyp" ++ tagIf (hyp && unambiguous) "hyp-values" ++
         tagIf (ts.length ≥ 2) "nontrivial" ++ tagIf f60 "f60-region"
       let rowOK (r : String) : Bool := match r.splitOn ";" with
